@@ -129,3 +129,45 @@ func zzC03_tcp_selftest() {
 	symWaitUntil(func() bool { return a.done })
 	symAssert(a.err != nil, "selftest: must fail (the request was answered)")
 }
+
+// the stream-connection counterpart of udp's zzC03_token_handover: a token reused by another goroutine the moment
+// its exchange is over on the wire, before the first call has returned
+func zzC03_tcp_token_handover() {
+	nc := &zzNetConn{}
+	cc := zzNewTCPConn(nc, nil, 0)
+	tok := message.Token{0x77}
+	tagA, tagB := symU8("tagA"), symU8("tagB")
+	a := &zzTCall{token: tok}
+	go zzTDo(cc, a)
+	symWaitUntil(func() bool { return len(nc.frames) >= 1 })
+	symIdle()
+	buf := bytes.NewBuffer(nil)
+	buf.Write(zzMkFrame(codes.Content, tok, []byte{tagA}))
+	_ = cc.session.processBuffer(buf, cc)
+	b := &zzTCall{token: tok}
+	go zzTDo(cc, b)
+	symWaitUntil(func() bool { return a.done })
+	symAssert(a.err == nil && len(a.body) == 1 && a.body[0] == tagA, "the first request returns its own response")
+	symIdle()
+	if b.done {
+		symCover("reuse-refused")
+		symAssert(b.err != nil, "a request that ends before any response for it arrived was refused")
+		return
+	}
+	symCover("reuse-accepted")
+	// listed finding: on the stream connection the first call's deferred clean-up removes the handler the second
+	// request registered (fixed on the datagram connection, see known_findings.json)
+	symKnown("C03-tcp-token-handover", true)
+	c := &zzTCall{token: tok}
+	go zzTDo(cc, c)
+	symIdle()
+	symAssert(c.done && c.err != nil, "a request issued with a token that is still outstanding is rejected")
+	buf = bytes.NewBuffer(nil)
+	buf.Write(zzMkFrame(codes.Content, tok, []byte{tagB}))
+	_ = cc.session.processBuffer(buf, cc)
+	symIdle()
+	symAssert(b.done && b.err == nil, "the outstanding request is completed by the response the peer produced for it")
+	if b.done && b.err == nil {
+		symAssert(len(b.body) == 1 && b.body[0] == tagB, "and returns that response")
+	}
+}
